@@ -87,6 +87,13 @@ check(
     "A call that terminates but is super-linearly slow inside the budget is not reported; the step budget is calibrated on the generated sizes only.",
 )
 
+check(
+    "C08",
+    "Hypothesis-generated WILD interfaces x 12 formats x rounds 2..4; fixpoint oracle round(ir_n) == ir_n with exact dict equality",
+    "Generated-input search over interfaces deliberately outside the exact-round-trip domains (trigger words, non-suffix defaults, hostile strings, unusual types); whatever the first round produces must be reproduced exactly by the second, third and fourth, and later rounds must not raise on the tool's own output.",
+    "Relaxations are per (parameter, finding) and decided on the input: P47 (prose-derived type/default), P12 (hostile string default), P29 (sqlalchemy column of unmapped type: format skipped), P46 (sqlalchemy class header doc), P21/P22 (google/numpydoc return entry).",
+)
+
 NOT_YET = "check not built yet in this round (work in progress; DESIGN.md section 4 has the plan)"
 
 
